@@ -190,18 +190,28 @@ theorem C14_finished_stays_finished (s t : QState) (hs : QReach s) (h : QReachFr
   have hinv := QInv_reachFrom QInv_init hs
   have key : QInv t ∧ (s.api c).final = true ∧ (t.api c).final = true ∧
       (t.cache c = none ∨ ∃ st', t.cache c = some st' ∧ st'.final = true) ∧
-      (t.polling = true → ∀ x, t.snap c = some x → t.dont c = false → x.final = true) := by
+      (t.polling = true → ∀ x, t.snap c = some x → ¬ t.dont c = true → x.final = true) := by
     induction h with
     | refl =>
       refine ⟨hinv, hinv.q1 c st hc hf, hinv.q1 c st hc hf, Or.inr ⟨st, hc, hf⟩, ?_⟩
       intro hp x hx hd
-      exact hinv.q2 c x st hp hx hd hc hf
-    | step hr stp ih =>
+      exact hinv.q2 c x st hp hx (by simpa using hd) hc hf
+    | @step t1 u1 ev hr stp ih =>
       obtain ⟨i1, i2, i3, i4, i5⟩ := ih
       have i1' := QInv_step i1 stp
       refine ⟨i1', i2, ?_, ?_, ?_⟩
       · cases stp <;> (try simp only [qupd_eq, QState.localUpdate]) <;> grind [final_iff]
-      · cases stp <;> (try simp only [qupd_eq, QState.localUpdate]) <;> grind [final_iff]
+      · cases stp with
+        | pollEnd hp =>
+          show (if t1.dont c = true then t1.cache c else t1.snap c) = none ∨
+            ∃ st', (if t1.dont c = true then t1.cache c else t1.snap c) = some st' ∧ st'.final = true
+          by_cases hd : t1.dont c = true
+          · simp only [hd, if_true]; exact i4
+          · simp only [hd]
+            cases hsn : t1.snap c with
+            | none => exact Or.inl rfl
+            | some x => exact Or.inr ⟨x, rfl, i5 hp x hsn hd⟩
+        | _ => (try simp only [qupd_eq, QState.localUpdate]) <;> grind [final_iff]
       · cases stp <;> (try simp only [qupd_eq, QState.localUpdate]) <;> grind [final_iff, QInv]
   exact key.2.2.2.1
 
